@@ -487,20 +487,17 @@ func (f Index) Last(prefix []byte) (i Item, err error) {
 	// next key if the key that it seeks to is not found
 	// and by getting the previous key, the last one for the
 	// actual prefix is found
-	nextPrefix := incByteSlice(prefix)
-	l := len(prefix)
-
-	if l > 0 && nextPrefix != nil {
+	totalPrefix := append(f.prefix, prefix...)
+	// least key greater than every key with totalPrefix (nil only if all bytes are 0xFF)
+	if next := bytesIncrement(totalPrefix); next != nil {
 		it.Seek(driver.Key{
 			Prefix: indexKeyPrefixLength,
-			Data:   append(f.prefix, nextPrefix...),
+			Data:   next,
 		})
 		it.Prev()
 	} else {
 		it.Last()
 	}
-
-	totalPrefix := append(f.prefix, prefix...)
 	return f.itemFromIterator(it, totalPrefix)
 }
 
